@@ -104,8 +104,8 @@ func c18() *core.Check {
 		L, P, QL, DL := 7, 3, 5, 6
 		rnd := uint64(300000)
 		if tier == "thorough" {
-			L, P, QL, DL = 10, 4, 6, 8
-			rnd = 6000000
+			L, P, QL, DL = 11, 5, 7, 9
+			rnd = 30000000
 		}
 		var us []core.Unit
 		for fi := range litForms {
@@ -132,7 +132,7 @@ func c18() *core.Check {
 	}
 	return &core.Check{
 		ID: "C18",
-		Rule: "for every literal form (real ' \" `, virtual quote in the four quoted modes, n' N' e' E' u&' U&', @' @\" @` @@' @@`) bodies over {delimiter, backslash, x, other quote} exhaustively up to length 7 (thorough 10) and periodic bodies U.V.U.V for all U,V up to length 3 (4), behind nine SQL prefixes (incl. backslashes before the opener); q-quotes for all 223 delimiter bytes >= 33 x bodies over {b, close(b), ', x} up to 5 (6), q/Q/nq/Nq; dollar quotes with tags of length 0-3 x bodies over {$, tag letter, x, y} up to 6 (8); the same literals embedded in random SQL. " +
+		Rule: "for every literal form (real ' \" `, virtual quote in the four quoted modes, n' N' e' E' u&' U&', @' @\" @` @@' @@`) bodies over {delimiter, backslash, x, other quote} exhaustively up to length 7 (thorough 11) and periodic bodies U.V.U.V for all U,V up to length 3 (5), behind nine SQL prefixes (incl. backslashes before the opener); q-quotes for all 223 delimiter bytes >= 33 x bodies over {b, close(b), ', x} up to 5 (7), q/Q/nq/Nq; dollar quotes with tags of length 0-3 x bodies over {$, tag letter, x, y} up to 6 (9); the same literals embedded in random SQL. " +
 			"The string token (content start, content end taken from the scan offset after the token, closed?, open/close marks, resume offset) is compared with the first-terminator oracle. Non-trivial = bodies holding a delimiter or backslash; distinct by input+form.",
 		Plan: plan,
 		Gen: func(w *core.Worker, u core.Unit, emit func(core.Case)) {
